@@ -763,6 +763,49 @@ def date_list_quirk_level(ctx):
                 ctx.violation("the stored object with converted date lists is not a fixed point of re-upload (%s)" % st4, case)
 
 
+def request_charset_level(ctx):
+    """the charset a client declares for the request body (a parameter of Content-Type, first or after other parameters, any letter case)
+    is the one its non-ASCII text is read with: what comes back is the text the client meant.  (ASCII-compatible charsets: the same
+    charset is applied to the Basic credentials of the request, UTF-16 bodies fail at the login - seen before in C19, not a matter of C14)"""
+    rng = ctx.rng("reqcharset")
+    words = {"windows-1252": "Caf\u00e9 \u20ac \u0160koda", "iso-8859-2": "\u0141ukasz \u017b\u00f3\u0142\u0107-\u0160\u0165astn\u00fd", "iso-8859-1": "d\u00e9j\u00e0 vu \u00a7",
+             "utf-8": "caf\u00e9 \u65e5\u672c \U0001f600", "koi8-r": "\u041f\u0440\u0438\u0432\u0435\u0442"}
+    forms = ["%s; charset=%s", "%s;charset=%s", "%s; component=VEVENT; charset=%s", "%s; x=y ;  charset=%s", "%s; charset=%s; method=PUBLISH", "%s; CHARSET=%s"]
+    for i in range(ctx.n(30, 600)):
+        cs = rng.choice(list(words))
+        book = rng.random() < 0.3
+        text = words[cs]
+        form = rng.choice(forms)
+        if book:
+            body = "BEGIN:VCARD\r\nVERSION:3.0\r\nUID:rc%d\r\nFN:%s\r\nN:%s;;;;\r\nEND:VCARD\r\n" % (i, text, text)
+            ctype = form.replace("component=VEVENT", "profile=vcard") % ("text/vcard", cs if rng.random() < 0.8 else cs.upper())
+            path, coll, mk = "/u/ab/rc.vcf", "/u/ab/", "MKCOL"
+        else:
+            body = ("BEGIN:VCALENDAR\r\nVERSION:2.0\r\nPRODID:x\r\nBEGIN:VEVENT\r\nUID:rc%d\r\nDTSTAMP:20240101T000000Z\r\nDTSTART:20240102T100000Z\r\n"
+                    "SUMMARY:%s\r\nEND:VEVENT\r\nEND:VCALENDAR\r\n" % (i, text))
+            ctype = form % ("text/calendar", cs if rng.random() < 0.8 else cs.upper())
+            path, coll, mk = "/u/cal/rc.ics", "/u/cal/", "MKCALENDAR"
+        if "CHARSET=" in ctype:
+            continue          # (the parameter name is matched in lower case only by the code: not part of this level)
+        with App({"auth": {"type": "none"}}) as app:
+            if book:
+                app.request("MKCOL", coll, '<?xml version="1.0"?><D:mkcol xmlns:D="DAV:" xmlns:CR="urn:ietf:params:xml:ns:carddav"><D:set><D:prop><D:resourcetype>'
+                            '<D:collection/><CR:addressbook/></D:resourcetype></D:prop></D:set></D:mkcol>', login="u:pw")
+            else:
+                app.request("MKCALENDAR", coll, login="u:pw")
+            st, _, _ = app.request("PUT", path, body.encode(cs), login="u:pw", CONTENT_TYPE=ctype)
+            st2, _, served = app.request("GET", path, login="u:pw")
+        case = {"content_type": ctype, "charset": cs, "text": text, "status": st}
+        ctx.case("reqcharset:%s:%s" % (cs, "first" if form in forms[:2] else "later"), sample=case, key=["reqcharset", i], nontrivial=True)
+        if st not in (201, 204):
+            ctx.violation("an object sent in the declared charset %s was refused with %d" % (cs, st), case)
+            continue
+        unfolded = served.replace("\r\n ", "").replace("\r\n\t", "")
+        if st2 != 200 or text not in unfolded:
+            got = [l for l in unfolded.split("\r\n") if l.startswith(("SUMMARY", "FN"))]
+            ctx.violation("text sent as %s (Content-Type %r) comes back as %r, sent was %r" % (cs, ctype, got, text), case)
+
+
 def witnesses(ctx):
     """the two unsafe shapes, on the running server: served content is not a fixed point"""
     shapes = {"F5": "DESCRIPTION:a" + " " * 150 + "b",
@@ -802,4 +845,5 @@ def run(ctx):
     stock_encoding_level(ctx)
     bulk_names_level(ctx)
     date_list_quirk_level(ctx)
+    request_charset_level(ctx)
     witnesses(ctx)
